@@ -340,9 +340,12 @@ class RaftNode(Entity):
         return events
 
     def _step_down(self, new_term: int) -> None:
+        # A vote is only forgotten when the term advances; within a term
+        # (AppendEntries from the elected leader) it must be kept.
+        if new_term > self._current_term:
+            self._voted_for = None
         self._current_term = new_term
         self._state = RaftState.FOLLOWER
-        self._voted_for = None
         if self._heartbeat_event:
             self._heartbeat_event.cancel()
             self._heartbeat_event = None
